@@ -5,8 +5,7 @@
   `encodePieces_eq`).  `lstep_*`: for an admissible piece (`pieceOk`) the reader goes from the state `stOf F cur`
   to `stOf F (curAfter F cur pc)` and the cursor invariant `CurOk` is kept — directory, vertex spans (double or
   exact float), edge / face / cell spans with any admissible width, offset and valence mode, property spans,
-  skippable chunks.  Faces and cells: polyhedral target without topology check; at most 16 843 009 faces / cells
-  (the reader's 32-bit `valence * count`, finding O2-topo-valence-product-overflow).
+  skippable chunks.  Faces and cells: polyhedral target without topology check.
   Proof-only file (not imported by the judge).  Core only.
 -/
 import OVM.IO.Ovmb.RoundTripLayoutBase
@@ -206,7 +205,7 @@ theorem lstep_edges (hw : WF F) (cur : Cur) (hcur : CurOk F cur) (pc : Piece) (c
     obtain ⟨a, b⟩ := hcur.pk i p hp
     exact ⟨a, Nat.le_trans b (slotCount_mono _ (Nat.le_refl _) (Nat.le_add_right _ _) (Nat.le_refl _) (Nat.le_refl _))⟩
 
-theorem listsOk_of (ls : List (List Nat)) (h1 : 1 ≤ ls.length) (h32 : ls.length ≤ 16843009)
+theorem listsOk_of (ls : List (List Nat)) (h1 : 1 ≤ ls.length) (h32 : ls.length < 2 ^ 32)
     (fixed : Bool) (valEnc hEnc off bound : Nat) (hb : bound ≤ 2 ^ 64)
     (hv : (if fixed then ls.all (·.length == valenceOf ls) && decide (1 ≤ valenceOf ls) && decide (valenceOf ls ≤ 255)
            else encOk valEnc && ls.all (fun l => decide (1 ≤ l.length) && decide (l.length < 256 ^ elemSizeInt valEnc))) = true)
@@ -220,16 +219,14 @@ theorem listsOk_of (ls : List (List Nat)) (h1 : 1 ≤ ls.length) (h32 : ls.lengt
       have := (hv.2 l hl).1; rw [hnil] at this; simp at this
     · simp only [if_true, Bool.and_eq_true, List.all_eq_true, decide_eq_true_eq, beq_iff_eq] at hv
       have := hv.1.1 l hl; rw [hnil] at this; simp at this; omega
-  refine ⟨h1, by omega, hEncOk, hoff, hb, ?_, ?_⟩
+  refine ⟨h1, h32, hEncOk, hoff, hb, ?_, ?_⟩
   · intro l hl
     exact ⟨hne l hl, fun h hh' => hhand h (List.mem_flatten.mpr ⟨l, hl, hh'⟩)⟩
   · cases fixed
     · simp only [Bool.false_eq_true, if_false, Bool.and_eq_true, List.all_eq_true, decide_eq_true_eq] at hv ⊢
       exact Or.inr ⟨trivial, hv.1, fun l hl => (hv.2 l hl).2⟩
     · simp only [if_true, Bool.and_eq_true, List.all_eq_true, decide_eq_true_eq, beq_iff_eq] at hv ⊢
-      refine Or.inl ⟨by omega, trivial, by omega, hv.1.1, ?_⟩
-      calc valenceOf ls * ls.length ≤ 255 * 16843009 := Nat.mul_le_mul hv.2 h32
-        _ < 2 ^ 32 := by decide
+      exact Or.inl ⟨by omega, trivial, by omega, hv.1.1⟩
 
 theorem addFaces_poly (hk : cfg.kind = .poly) (ht : cfg.topoCheck = false) (edges : List (Nat × Nat))
     (fs : List (List Nat)) : addFaces cfg edges fs = .ok true :=
@@ -247,7 +244,7 @@ theorem topo_valence (fixed : Bool) (v fv : Nat)
   · exact absurd h hne
   · simp [h1, h2]
 
-theorem lstep_faces (hk : cfg.kind = .poly) (ht : cfg.topoCheck = false) (hw : WF F) (hnf : F.faces.length ≤ 16843009)
+theorem lstep_faces (hk : cfg.kind = .poly) (ht : cfg.topoCheck = false) (hw : WF F)
     (cur : Cur) (hcur : CurOk F cur) (pc : Piece) (count : Nat) (fixed : Bool) (valEnc hEnc off : Nat)
     (hs : pc.spec = .faces count fixed valEnc hEnc off) (hok : pieceOk F cur pc = true) :
     processChunk cfg (stOf F cur) (chunkOf F cur pc).hdr (chunkOf F cur pc).payload = .ok (stOf F (curAfter F cur pc))
@@ -300,7 +297,7 @@ theorem lstep_faces (hk : cfg.kind = .poly) (ht : cfg.topoCheck = false) (hw : W
     obtain ⟨a, b⟩ := hcur.pk i p hp
     exact ⟨a, Nat.le_trans b (slotCount_mono _ (Nat.le_refl _) (Nat.le_refl _) (Nat.le_add_right _ _) (Nat.le_refl _))⟩
 
-theorem lstep_cells (hk : cfg.kind = .poly) (ht : cfg.topoCheck = false) (hw : WF F) (hnc : F.cells.length ≤ 16843009)
+theorem lstep_cells (hk : cfg.kind = .poly) (ht : cfg.topoCheck = false) (hw : WF F)
     (cur : Cur) (hcur : CurOk F cur) (pc : Piece) (count : Nat) (fixed : Bool) (valEnc hEnc off : Nat)
     (hs : pc.spec = .cells count fixed valEnc hEnc off) (hok : pieceOk F cur pc = true) :
     processChunk cfg (stOf F cur) (chunkOf F cur pc).hdr (chunkOf F cur pc).payload = .ok (stOf F (curAfter F cur pc))
